@@ -510,13 +510,19 @@ def do_replay(run, path):
             f.write(json.dumps(c) + '\n')
         f.write(json.dumps(doc['case']) + '\n')
     binp = build_harness(run, race=doc.get('race', False))
-    trace = os.path.join(wd, 'trace-00.ndjson')
-    rc, stats, err = run_harness(binp, cases, trace, nodedup=True)
-    if rc != 0:
-        raise Infra('replay harness failed: ' + str(err)[-2000:])
-    mism, n = validate_shard(run, wd, doc['trace_module'], trace, [doc['property']])
     want = mismatch_key(doc['mismatch'])
-    same = [m for m in mism if mismatch_key(m) == want]
+    # real schedules differ from run to run: a concurrent history gets several re-executions before it counts as not reproduced
+    tries = 6 if doc['trace_module'] == 'Trace_Lin' else 1
+    same, mism = [], []
+    for t in range(tries):
+        trace = os.path.join(wd, 'trace-%02d.ndjson' % t)
+        rc, stats, err = run_harness(binp, cases, trace, nodedup=True)
+        if rc != 0:
+            raise Infra('replay harness failed: ' + str(err)[-2000:])
+        mism, n = validate_shard(run, wd, doc['trace_module'], trace, [doc['property']])
+        same = [m for m in mism if mismatch_key(m) == want]
+        if same:
+            break
     return same, mism
 
 
